@@ -698,6 +698,11 @@ func normalizePath(dst, src []byte) []byte {
 		b = b[:nn+1]
 	}
 
+	// remove trailing /.
+	if n := len(b); n >= 2 && b[n-1] == '.' && b[n-2] == '/' {
+		b = b[:n-1]
+	}
+
 	if filepath.Separator == '\\' {
 		// remove \.\ parts
 		for {
